@@ -14,9 +14,9 @@ RULE = ('streams: owner (universe / lattice decks incl. lattices filled with the
         'numerically different values: same spelling class (Lean spec spellClass) ⇒ one composition name, different '
         'value ⇒ different names, every GEOMCOMP name defined in COMPOSITION); normfloat (normalize_float vs the Lean '
         'model on an enumerated grammar of literals). Non-trivial = deck has ≥ 2 cells of one material.')
-NOT_PROVED = ['value preservation for literals with an exponent part (1.5e0, 1.5+0, 1.5d0): proved only that the markers '
-              'are normalised; for plain decimals (sign, digits, point, digits) the key is proved to denote the same number '
-              'and equal keys to imply equal numbers (same_key_same_value)']
+NOT_PROVED = ['that GEOMCOMP attaches each volume to the composition named by this key is decided by the owner stream '
+              '(point monitor on the written file), not by a theorem; numerically equal densities written with different '
+              'exponents get different keys by design (see ASSUMPTIONS)']
 ASSUMPTIONS = ["numerically equal densities written with different exponents (e.g. -0.27E1 vs -2.7) are different "
                "spellings in the property's sense and may get two compositions"]
 
